@@ -24,6 +24,11 @@ pub enum Csg {
     /// goes negative on large boxes around the centre (dx dy is not recognised as
     /// bounded by the squares), so sqrt yields the NaN interval on coarse cells.
     Skew { c: [Fl; 3], k: Fl, r: Fl },
+    /// exact signed distance to a box, q = |p - c| - h:
+    /// sqrt(max(qx,0)^2 + max(qy,0)^2 + max(qz,0)^2) + min(max(qx, qy, qz), 0).
+    /// 1-Lipschitz; the square root is taken of exactly 0 everywhere inside and
+    /// on the faces, so the gradient evaluators return NaN (0/0) there
+    SdfBox { c: [Fl; 3], h: [Fl; 3] },
     Union(Box<Csg>, Box<Csg>),
     Inter(Box<Csg>, Box<Csg>),
     Diff(Box<Csg>, Box<Csg>),
@@ -57,6 +62,28 @@ impl Csg {
                     });
                 }
                 out.unwrap()
+            }
+            Csg::SdfBox { c, h } => {
+                let mut q = vec![];
+                for (i, a) in [x, y, z].into_iter().enumerate() {
+                    let d = ctx.sub(a, c[i].0).unwrap();
+                    let d = ctx.abs(d).unwrap();
+                    q.push(ctx.sub(d, h[i].0).unwrap());
+                }
+                let mut s: Option<Node> = None;
+                for qi in &q {
+                    let m = ctx.max(*qi, 0.0).unwrap();
+                    let m2 = ctx.square(m).unwrap();
+                    s = Some(match s {
+                        None => m2,
+                        Some(o) => ctx.add(o, m2).unwrap(),
+                    });
+                }
+                let outside = ctx.sqrt(s.unwrap()).unwrap();
+                let m = ctx.max(q[1], q[2]).unwrap();
+                let m = ctx.max(q[0], m).unwrap();
+                let inside = ctx.min(m, 0.0).unwrap();
+                ctx.add(outside, inside).unwrap()
             }
             Csg::Cylinder { c, r, hz } => {
                 let dx = ctx.sub(x, c[0].0).unwrap();
@@ -189,6 +216,13 @@ pub fn primitive(range: f32, smin: f32, smax: f32, halfspaces: bool) -> BoxedStr
         // origin (C08 needs the surface strictly inside the region)
         ([lattice(), lattice(), lattice()], pos(smin, smax), pos(smin, smax))
             .prop_map(|(apex, r, h)| Csg::Cone { apex, k: Fl(r.0 / h.0), h })
+            .boxed(),
+    ));
+    // exact-distance boxes (NaN gradient on and inside every face)
+    alts.push((
+        1,
+        (c3(), [pos(smin, smax), pos(smin, smax), pos(smin, smax)])
+            .prop_map(|(c, h)| Csg::SdfBox { c, h })
             .boxed(),
     ));
     // skew ellipsoids whose longest half-axis is in [smin, smax]
